@@ -90,3 +90,44 @@ contract(CA + '.reset', types={'name_id': NID, 'entity_id': 'Str'}, inline=False
          raises={},
          modifies=['dict(self._db)', 'dict(self._db[code_of(name_id)])'],
          clauses_from={'C19': ['C19-reset-entry-present', 'C19-reset-entry-expiry-0', 'C19-other-subjects-untouched']})
+
+
+# ================================================================================================ Population: the wrappers the client uses
+PO = 'saml2_tophat.population:Population'
+declare_class(PO, fields={'cache': "Inst('%s')" % CA})
+_DB_OK = 'forall(lambda k: implies(has_key(self.cache._db, k), typed(self.cache._db[k], "Dict(Str, %s)")), "Val")' % ENTRY
+contract(PO + '.get_info_from', types={'name_id': NID, 'entity_id': 'Str', 'check_not_on_or_after': 'Any'}, returns='Opt(Dict(Str, Any))',
+         requires=[_DB_OK],
+         lets={'TS': 'ENTRY_OF(self.cache, name_id, entity_id)[0]'},
+         ensures=[('C19-right-subject-and-source', 'HAS_ENTRY(self.cache, name_id, entity_id)'),
+                  ('C19-not-expired', 'implies(truthy(check_not_on_or_after) and is_int(TS) and truthy(TS), NOW <= int_of(TS))'),
+                  ('C19-no-expiry-means-too-old', 'implies(truthy(check_not_on_or_after), truthy(TS))')],
+         raises={'KeyError': 'not HAS_ENTRY(self.cache, name_id, entity_id)',
+                 'saml2_tophat.cache:ToOld': 'HAS_ENTRY(self.cache, name_id, entity_id) and truthy(check_not_on_or_after) and '
+                          '(not truthy(TS) or not is_int(TS) or NOW >= int_of(TS))',
+                 'ValueError': 'True', 'AttributeError': 'True', 'TypeError': 'True'},
+         modifies=[], clauses_from={'C19': ['C19-right-subject-and-source', 'C19-not-expired', 'raises.saml2_tophat.cache:ToOld']})
+contract(PO + '.remove_person', types={'name_id': NID},
+         ensures=[('C19-subject-gone', 'not has_key(self.cache._db, code_of(name_id))'),
+                  ('C19-others-untouched', 'forall(lambda k: implies(k != code_of(name_id), has_key(self.cache._db, k) == old(has_key(self.cache._db, k)) and '
+                                           'valmap(self.cache._db)[k] == old(valmap(self.cache._db))[k]), "Val")')],
+         raises={'KeyError': 'not has_key(self.cache._db, code_of(name_id))'},
+         modifies=['dict(self.cache._db)'], clauses_from={'C19': ['C19-subject-gone', 'C19-others-untouched']})
+contract(PO + '.add_information_about_person', types={'session_info': 'Dict(Str, Any)'}, returns=NID,
+         requires=[_DB_OK,
+                   'has_key(session_info, "name_id") and typed(session_info["name_id"], "%s")' % NID,
+                   'has_key(session_info, "issuer") and is_str(session_info["issuer"])',
+                   'has_key(session_info, "not_on_or_after") and (is_int(session_info["not_on_or_after"]) or is_str(session_info["not_on_or_after"]) '
+                   'or session_info["not_on_or_after"] is None)',
+                   'forall(lambda k: implies(has_key(self.cache._db, k), self.cache._db[k] != session_info and self.cache._db[k] != self.cache._db), "Val")',
+                   'session_info != self.cache._db'],
+         lets={'N0': 'session_info["name_id"]', 'I0': 'str_of(session_info["issuer"])', 'E0': 'session_info["not_on_or_after"]'},
+         ensures=[('C19-stored-for-the-subject-of-the-session', 'result == N0 and HAS_ENTRY(self.cache, as_type(N0, "%s"), I0)' % NID),
+                  ('C19-stored-with-the-session-expiry', 'ENTRY_OF(self.cache, as_type(N0, "%s"), I0)[0] == E0' % NID),
+                  ('C19-other-subjects-untouched',
+                   'forall(lambda k: implies(k != code_of(N0), has_key(self.cache._db, k) == old(has_key(self.cache._db, k)) and '
+                   'valmap(self.cache._db)[k] == old(valmap(self.cache._db))[k]), "Val")'),
+                  ('caller-session-info-untouched', 'keyset(session_info) == old(keyset(session_info)) and valmap(session_info) == old(valmap(session_info))')],
+         raises={'Exception': 'True'},
+         modifies=['dict(self.cache._db)', 'dict(self.cache._db[code_of(session_info["name_id"])])'],
+         clauses_from={'C19': ['C19-stored-for-the-subject-of-the-session', 'C19-stored-with-the-session-expiry', 'C19-other-subjects-untouched']})
